@@ -367,6 +367,17 @@ func exec(line string, st *hx.Stats) string {
 	}
 	var parts []string
 	known := map[string]bool{}
+	standalone := func(i int) string {
+		c2, cancel2 := context.WithTimeout(context.Background(), 20*time.Second)
+		defer cancel2()
+		res, err := checker.Execute(c2, &commands.CheckCommandParams{
+			StoreID:          fgarun.StoreID,
+			TupleKey:         checks[i].GetTupleKey(),
+			ContextualTuples: checks[i].GetContextualTuples(),
+			Context:          checks[i].GetContext(),
+		})
+		return outcome(res, err)
+	}
 	for i, it := range items {
 		known[it.cid] = true
 		b := "missing"
@@ -374,15 +385,27 @@ func exec(line string, st *hx.Stats) string {
 			b = outcome(&commands.CheckResult{Allowed: o.Allowed}, o.Err)
 		}
 		// the standalone Check of the same item through the same checker
-		c2, cancel2 := context.WithTimeout(context.Background(), 20*time.Second)
-		res, err := checker.Execute(c2, &commands.CheckCommandParams{
-			StoreID:          fgarun.StoreID,
-			TupleKey:         checks[i].GetTupleKey(),
-			ContextualTuples: checks[i].GetContextualTuples(),
-			Context:          checks[i].GetContext(),
-		})
-		cancel2()
-		parts = append(parts, it.cid+"="+b+"/"+outcome(res, err))
+		s1 := standalone(i)
+		mark := ""
+		if b != s1 && b != "missing" {
+			// Check itself may be non-deterministic on this input (C02: exclusion / intersection races on
+			// cyclic models): ask again, standalone and as a batch of one
+			st.Inc("recheck")
+			for rep := 0; rep < 12 && mark == ""; rep++ {
+				if standalone(i) != s1 {
+					mark = "~"
+				}
+				c3, cancel3 := context.WithTimeout(context.Background(), 20*time.Second)
+				r1, _, e1 := cmd.Execute(c3, &commands.BatchCheckCommandParams{AuthorizationModelID: fgarun.ModelID, Checks: checks[i : i+1], StoreID: fgarun.StoreID})
+				cancel3()
+				if e1 == nil {
+					if o := r1[commands.CorrelationID(it.cid)]; o != nil && outcome(&commands.CheckResult{Allowed: o.Allowed}, o.Err) != b {
+						mark = "~"
+					}
+				}
+			}
+		}
+		parts = append(parts, it.cid+"="+b+"/"+s1+mark)
 	}
 	var extra []string
 	for id := range results {
